@@ -64,7 +64,24 @@ class Chains:
         nmax = 20 if tier == 'quick' else int(rng.choice([20, 50, 120]))
         self.n = int(rng.integers(8, nmax + 1))
         self.base = {}
-        if layout == 'jack_two_chains':
+        if layout in ('jack_other_configs', 'jack_other_configs_within'):
+            name = '%s|%s' % (self.e1, rng.choice(gen.REP_POOL))
+            n_ = self.n
+            variant = str(rng.choice(['shifted', 'same_ends', 'same_ends']))
+            start = int(rng.integers(1, 40))
+            if variant == 'shifted':
+                base_l = list(range(start, start + n_))
+                alt = [c + int(rng.choice([1, 2, n_])) for c in base_l]
+            else:
+                span = list(range(start + 1, start + 2 * n_))
+                base_l = [start] + sorted(rng.choice(span, size=n_ - 2, replace=False).tolist()) + [start + 2 * n_]
+                alt = list(base_l)
+                while alt == base_l:
+                    alt = [start] + sorted(rng.choice(span, size=n_ - 2, replace=False).tolist()) + [start + 2 * n_]
+            self.base[name] = [int(c) for c in base_l]
+            self.alt = [int(c) for c in alt]
+            self.current = 0
+        elif layout == 'jack_two_chains':
             idl = [int(c) for c in gen.rand_idl(rng, self.n, 'contig', as_type='list')]
             other = '%s|r2' % self.e1 if rng.random() < 0.5 else '%s|r1' % self.e2
             self.per_operand = ['%s|r1' % self.e1, other]
@@ -96,6 +113,10 @@ class Chains:
     def _chain_list(self, name):
         rng = self.rng
         cfgs = self.base[name]
+        if self.layout == 'jack_other_configs' and self.current >= 1:
+            return self.alt
+        if self.layout == 'jack_other_configs_within' and rng.random() < 0.5:
+            return self.alt
         if self.layout != 'irregular':
             if self.layout == 'two_ens' and rng.random() < 0.2:
                 self.aligned = True
@@ -1070,6 +1091,32 @@ def real_obs_operand_in_complex_product(ops):
     return 'CObs' in kinds and 'Obs' in kinds, kinds
 
 
+def chain_lists(descs):
+    """{(chain, configuration list)} over all observable entries of the operands"""
+    out = set()
+    for d in descs:
+        for row in (d if d and isinstance(d[0], list) else [d]):
+            for e in row:
+                for s_ in e[1:]:
+                    if isinstance(s_, dict):
+                        for c_, v_ in s_['chains'].items():
+                            out.add((c_, tuple(int(i_) for i_ in v_[0])))
+    return out
+
+
+def judge_other_configs(ctx, op, got, descs, what):
+    """entries on one chain but on different configurations (equal number): a jackknife routine combines samples index by index, so the
+    only admissible outcome is a refusal"""
+    cl = chain_lists(descs)
+    if len(set(c_ for c_, _ in cl)) == 1 and len(cl) > 1:
+        ctx.ev()
+        ctx.count('judged:' + op + ':entries-on-different-configurations-of-equal-number-are-combined-index-by-index')
+        ctx.violation(op + ':entries-on-different-configurations-of-equal-number-are-combined-index-by-index',
+                      {'what': what, 'lists': [list(l_)[:6] for _, l_ in sorted(cl)][:3], 'lengths': sorted(set(len(l_) for _, l_ in cl))})
+        return True
+    return False
+
+
 def case_jack(ctx, rng, nfac, entries, layout):
     pe = PE
     big = 4 if ctx.tier == 'thorough' or rng.random() < 0.25 else 3
@@ -1089,8 +1136,15 @@ def case_jack(ctx, rng, nfac, entries, layout):
             got = pe.linalg.jack_matmul(*[np.array(o, copy=True) for o in ops])
         except Exception as e:
             ctx.count('jack_on_several_chains_refused' if 'one ensemble and replicum' in str(e) else 'jack_on_several_chains_raised:' + type(e).__name__)
+            if len(chain_lists(descs)) > 1 and len(set(c_ for c_, _ in chain_lists(descs))) == 1:
+                ctx.ev()
+                ctx.count('judged:jack_matmul:entries-on-different-configurations-of-equal-number-are-combined-index-by-index')
+                ctx.nontrivial.add(digest('jack-other-configs', sorted(chain_lists(descs))))
+                return
             raise Skip()
         ctx.count('jack_on_several_chains_returned')
+        if judge_other_configs(ctx, 'jack_matmul', got, descs, what):
+            return
         if len(used) > 1:
             x = np.asarray(got, dtype=object).ravel()[0]
             x = x.real if is_cobs(x) else x
@@ -1184,14 +1238,21 @@ def case_einsum(ctx, rng, form, entries, layout, implicit):
         call_sub = lhs
     what = 'einsum %r shapes=%r entries=%s layout=%s' % (call_sub, shapes, entries, layout)
     ctx.cell('einsum', form, 'implicit' if implicit else 'explicit', entries, layout)
-    if layout == 'jack_two_chains':
+    if layout in ('jack_two_chains', 'jack_other_configs', 'jack_other_configs_within'):
         used = sorted(set(c for d in descs for row in (d if isinstance(d[0], list) else [d]) for e in row for s_ in e[1:] if isinstance(s_, dict) for c in s_['chains']))
         try:
             got = pe.linalg.einsum(call_sub, *[np.array(o, copy=True) for o in ops])
         except Exception as e:
             ctx.count('einsum_on_several_chains_raised:' + type(e).__name__)
+            if len(chain_lists(descs)) > 1 and len(set(c_ for c_, _ in chain_lists(descs))) == 1:
+                ctx.ev()
+                ctx.count('judged:einsum:entries-on-different-configurations-of-equal-number-are-combined-index-by-index')
+                ctx.nontrivial.add(digest('einsum-other-configs', sorted(chain_lists(descs))))
+                return
             raise Skip()
         ctx.count('einsum_on_several_chains_returned')
+        if judge_other_configs(ctx, 'einsum', got, descs, what):
+            return
         if len(used) > 1:
             x = np.asarray(got, dtype=object).ravel()[0]
             x = x.real if is_cobs(x) else x
@@ -1319,6 +1380,8 @@ def plan(tier):
             for lay in ('jack', 'jack_irregular'):
                 p.append(('jack:%d:%s:%s' % (nfac, ent, lay), 5 * m))
         p.append(('jack:%d:Obs:two_ens' % nfac, 1 * m))
+        for lay in ('jack_other_configs', 'jack_other_configs_within'):
+            p.append(('jack:%d:%s:%s' % (nfac, 'Obs' if nfac != 3 else 'CObs', lay), 10 * m))
         p.append(('jack:%d:%s:regular' % (nfac, 'Obs' if nfac != 4 else 'CObs'), 6 * m))
         p.append(('jack:%d:%s:jack_two_chains' % (nfac, 'Obs' if nfac != 3 else 'CObs'), 2 * m))
     for which in ('cholesky_cobs', 'det_list'):
@@ -1331,6 +1394,8 @@ def plan(tier):
         p.append(('einsum:%s:CObs:jack_irregular:implicit' % form, 1 * m))
     for form in ('matmul', 'hadamard', 'matvec'):
         p.append(('einsum:%s:Obs:jack_two_chains:explicit' % form, 2 * m))
+        for lay in ('jack_other_configs', 'jack_other_configs_within'):
+            p.append(('einsum:%s:%s:%s:explicit' % (form, 'Obs' if form != 'hadamard' else 'CObs', lay), 10 * m))
     return p
 
 
